@@ -2,6 +2,7 @@ import RtenVerif.Lemmas.TensorBoundsOverlapM
 import RtenVerif.Lemmas.TensorBoundsSplit
 import RtenVerif.Lemmas.TensorBoundsViews
 import RtenVerif.Lemmas.TensorBoundsSliceM
+import RtenVerif.Lemmas.TensorBoundsOwned
 import RtenVerif.Props.C08
 
 /-!
@@ -734,7 +735,8 @@ below the new storage length, and if the tensor was accepted (passed the overlap
 clipped layout still maps distinct indices to distinct elements. -/
 theorem c06_T2_clipDim {t t' : Owned} {dim s e : Nat} (h : clipDim t dim s e = some t') :
     (∀ j, ValidIdx t'.dims j → offset t'.dims j < t'.dataLen) ∧
-    (Inj t.dims → Inj t'.dims) ∧ t'.dataLen ≤ t.dataLen ∧ t'.cap = t.cap := by
+    (Inj t.dims → Inj t'.dims) ∧ t'.dataLen ≤ t.dataLen ∧ t'.cap = t.cap ∧
+    (∃ n, n ≤ sizeAt t.dims dim ∧ t'.dims = setSize t.dims dim n) := by
   rw [clipDim_unfold] at h
   by_cases hc : dim < t.dims.length ∧ s ≤ e ∧ e ≤ sizeAt t.dims dim
   · rw [if_pos hc] at h
@@ -749,14 +751,15 @@ theorem c06_T2_clipDim {t t' : Owned} {dim s e : Nat} (h : clipDim t dim s e = s
       split at h
       · have ht := Option.some.inj h
         subst ht
-        exact ⟨fun j hj => absurd hlen (valid_len_pos hj), hinj, Nat.min_le_left _ _, rfl⟩
+        exact ⟨fun j hj => absurd hlen (valid_len_pos hj), hinj, Nat.min_le_left _ _, rfl,
+          e - s, by omega, rfl⟩
       · cases h
     · simp only [if_neg hlen] at h
       split at h
       · next hfit =>
         have ht := Option.some.inj h
         subst ht
-        refine ⟨fun j hj => ?_, hinj, Nat.min_le_left _ _, rfl⟩
+        refine ⟨fun j hj => ?_, hinj, Nat.min_le_left _ _, rfl, e - s, by omega, rfl⟩
         have hj' : ValidIdx (setSize t.dims dim (e - s)) j := hj
         have hlt := c06_T1_offset_lt_min_data_len _ _ hj'
         show offset (setSize t.dims dim (e - s)) j <
@@ -1062,11 +1065,204 @@ example : runViews true ⟨0, 12, [(3, 4), (4, 1)]⟩
     runViews true ⟨0, 12, [(3, 4), (4, 1)]⟩ [.sliceAxis 0 1 3, .splitRight 1 1] =
       some ⟨5, 7, [(2, 4), (3, 1)]⟩ := by decide
 
-/-- The invariant of an owned tensor. -/
-def OSafe (t : Owned) : Prop := VSafe true t.dims t.dataLen ∧ t.dataLen ≤ t.cap
+/-! ### Element addresses: a child view only reaches elements its parent reaches -/
 
-/-- **C06.T2q** every mutating call on an owned tensor (`clip_dim`, `append`; successful or
-failing) preserves the invariant… -/
+/-- `a` is the absolute offset (into the root storage) of an element the view can address. -/
+def Addr (v : AView) (a : Nat) : Prop := ∃ j, ValidIdx v.dims j ∧ a = v.base + offset v.dims j
+
+theorem split_embeds {dims : List (Nat × Nat)} {axis mid : Nat} {l r : View}
+    (h : split dims axis mid = some (l, r)) :
+    (∀ i, ValidIdx l.dims i → ∃ p, ValidIdx dims p ∧ offset dims p = l.start + offset l.dims i) ∧
+    (∀ j, ValidIdx r.dims j → ∃ p, ValidIdx dims p ∧ offset dims p = r.start + offset r.dims j) := by
+  unfold split at h
+  split at h
+  · next hc =>
+    obtain ⟨hax, hmid⟩ := hc
+    simp only [Option.some.injEq, Prod.mk.injEq] at h
+    obtain ⟨rfl, rfl⟩ := h
+    refine ⟨fun i hi => ?_, fun j hj => ?_⟩
+    · obtain ⟨v, o, _⟩ := embedL dims axis mid i hax hmid hi
+      exact ⟨i, v, by simp only [Nat.zero_add]; exact o⟩
+    · have hj' : ValidIdx (setSize dims axis (sizeAt dims axis - mid)) j := by
+        split at hj <;> exact hj
+      obtain ⟨v, o, _⟩ := embedR dims axis mid j hax hmid hj'
+      refine ⟨_, v, ?_⟩
+      rw [if_neg (valid_len_pos hj')]
+      exact o
+  · cases h
+
+theorem sliceAxis_embeds {dims : List (Nat × Nat)} {n axis s e : Nat} {v : View}
+    (h : sliceAxis dims n axis s e = some v) :
+    ∀ j, ValidIdx v.dims j → ∃ p, ValidIdx dims p ∧ offset dims p = v.start + offset v.dims j := by
+  rw [sliceAxis_unfold] at h
+  split at h
+  · next hc =>
+    obtain ⟨hax, hse, hes⟩ := hc
+    split at h
+    · have hv := Option.some.inj h
+      subst hv
+      intro j hj
+      rw [sliceView_dims] at hj
+      obtain ⟨vj, oj⟩ := embedShift dims axis s (e - s) j hax (by omega) hj
+      refine ⟨_, vj, ?_⟩
+      unfold sliceView
+      rw [if_neg (valid_len_pos hj), strideAt_setSize]
+      exact oj
+    · cases h
+  · cases h
+
+theorem trySlice_embeds {dims : List (Nat × Nat)} {n : Nat} {items : List SItem} {v : View}
+    (h : trySlice true dims n items = .ok v) :
+    ∀ j, ValidIdx v.dims j → ∃ p, ValidIdx dims p ∧ offset dims p = v.start + offset v.dims j := by
+  unfold trySlice at h
+  split at h
+  · cases h
+  · next rs hrs =>
+    split at h
+    · cases h
+    · next v' hv =>
+      cases h
+      have hok := resolveItems_ok dims items rs hrs
+      rw [trySliceR_unfold] at hv
+      split at hv
+      · have hv' := Option.some.inj hv
+        subst hv'
+        intro j hj
+        have hj' : ValidIdx (sliceLoopR dims rs).2 j := hj
+        obtain ⟨vi, oi⟩ := slice_embed dims rs hok j hj'
+        refine ⟨_, vi, ?_⟩
+        show _ = (if hasZero (sliceLoopR dims rs).2 = true then 0 else (sliceLoopR dims rs).1) +
+          offset (sliceLoopR dims rs).2 j
+        rw [valid_hasZero hj']
+        exact oi
+      · cases hv
+
+/-- **C06.T2r** every element a child view can address through a mutable-view operation is an
+element its parent addresses (same absolute offset, through a valid parent index). -/
+theorem c06_T2_view_step_addr {v w : AView} {op : ViewOp} (h : applyView true v op = some w)
+    {a : Nat} (ha : Addr w a) : Addr v a := by
+  obtain ⟨j, hj, rfl⟩ := ha
+  cases op with
+  | slice items =>
+    simp only [applyView] at h
+    split at h
+    · next x hx =>
+      cases h
+      obtain ⟨p, hp, ho⟩ := trySlice_embeds hx j hj
+      exact ⟨p, hp, by simp only [AView.sub]; omega⟩
+    · cases h
+  | sliceAxis axis s e =>
+    simp only [applyView, Option.map_eq_some_iff] at h
+    obtain ⟨x, hx, rfl⟩ := h
+    obtain ⟨p, hp, ho⟩ := sliceAxis_embeds hx j hj
+    exact ⟨p, hp, by simp only [AView.sub]; omega⟩
+  | splitLeft axis mid =>
+    simp only [applyView, Option.map_eq_some_iff] at h
+    obtain ⟨⟨l, r⟩, hx, rfl⟩ := h
+    unfold splitAtMut at hx
+    split at hx
+    · cases hx
+    · next l' r' hsp =>
+      split at hx
+      · cases hx
+        obtain ⟨p, hp, ho⟩ := (split_embeds hsp).1 j hj
+        exact ⟨p, hp, by simp only [AView.sub]; omega⟩
+      · cases hx
+  | splitRight axis mid =>
+    simp only [applyView, Option.map_eq_some_iff] at h
+    obtain ⟨⟨l, r⟩, hx, rfl⟩ := h
+    unfold splitAtMut at hx
+    split at hx
+    · cases hx
+    · next l' r' hsp =>
+      split at hx
+      · cases hx
+        obtain ⟨p, hp, ho⟩ := (split_embeds hsp).2 j hj
+        exact ⟨p, hp, by simp only [AView.sub]; omega⟩
+      · cases hx
+  | broadcast target => simp [applyView] at h
+
+theorem c06_T2_view_chain_addr : ∀ (ops : List ViewOp) {v w : AView},
+    runViews true v ops = some w → ∀ {a : Nat}, Addr w a → Addr v a := by
+  intro ops
+  induction ops with
+  | nil =>
+    intro v w h a ha
+    simp only [runViews, Option.some.injEq] at h
+    subst h; exact ha
+  | cons op ops ih =>
+    intro v w h a ha
+    simp only [runViews] at h
+    split at h
+    · cases h
+    · next u hu => exact c06_T2_view_step_addr hu (ih h ha)
+
+/-- **C06.T2s** (siblings at any depth): split a mutable view with injective offsets along any
+axis, then apply *any* chain of mutable-view operations to the left half and any other chain
+to the right half: the two resulting views have no element in common.  (Their storage
+*ranges* may overlap — `c06_T2_view_chain` only bounds ranges — but no address is reachable
+from both, so `l.slice_mut(..)` and `r.slice_mut(..)` etc. never alias.) -/
+theorem c06_T2_siblings_disjoint {v l r wl wr : AView} {axis mid : Nat}
+    {opsL opsR : List ViewOp} (hinj : Inj v.dims)
+    (hl : applyView true v (.splitLeft axis mid) = some l)
+    (hr : applyView true v (.splitRight axis mid) = some r)
+    (hwl : runViews true l opsL = some wl) (hwr : runViews true r opsR = some wr)
+    {a : Nat} (hal : Addr wl a) (har : Addr wr a) : False := by
+  obtain ⟨i, hi, hai⟩ := c06_T2_view_chain_addr opsL hwl hal
+  obtain ⟨j, hj, haj⟩ := c06_T2_view_chain_addr opsR hwr har
+  simp only [applyView, Option.map_eq_some_iff] at hl hr
+  obtain ⟨⟨l1, r1⟩, hx, rfl⟩ := hl
+  obtain ⟨⟨l2, r2⟩, hy, rfl⟩ := hr
+  rw [hx] at hy
+  simp only [Option.some.injEq, Prod.mk.injEq] at hy
+  obtain ⟨rfl, rfl⟩ := hy
+  unfold splitAtMut at hx
+  split at hx
+  · cases hx
+  · next l' r' hsp =>
+    split at hx
+    · cases hx
+      have hd := ((c06_T2_split hsp).2.2 hinj).1 i j hi hj
+      simp only [AView.sub] at hai haj
+      omega
+    · cases hx
+
+/-- Non-vacuity: the halves of a column split of a 2×3 tensor, each sliced again. -/
+example : applyView true ⟨0, 6, [(2, 3), (3, 1)]⟩ (.splitLeft 1 1) = some ⟨0, 4, [(2, 3), (1, 1)]⟩ ∧
+    applyView true ⟨0, 6, [(2, 3), (3, 1)]⟩ (.splitRight 1 1) = some ⟨1, 5, [(2, 3), (2, 1)]⟩ ∧
+    runViews true ⟨0, 4, [(2, 3), (1, 1)]⟩ [.sliceAxis 0 1 2] = some ⟨3, 1, [(1, 3), (1, 1)]⟩ ∧
+    runViews true ⟨1, 5, [(2, 3), (2, 1)]⟩ [.slice [.range 0 (some 1)]] =
+      some ⟨1, 2, [(1, 3), (2, 1)]⟩ := by decide
+
+/-- The invariant of an owned tensor: `VSafe` within the `Vec` capacity, plus the size guards
+(needed by `c06_T3_append_size_no_wrap` and by the machine = ideal theorems). -/
+structure OSafe (t : Owned) : Prop where
+  vsafe : VSafe true t.dims t.dataLen
+  cap : t.dataLen ≤ t.cap
+  shape_fits : prodNZ (shapeOf t.dims) ≤ isizeMax
+  offset_fits : maxOffset t.dims < isizeMax
+
+/-- Every constructor-accepted owned tensor satisfies it. -/
+theorem c06_accepted_osafe {dims : List (Nat × Nat)} {n cap : Nat} (acc : Accepted dims n true)
+    (hcap : n ≤ cap) : OSafe ⟨dims, n, cap⟩ :=
+  ⟨c06_accepted_vsafe acc, hcap, acc.shape_fits, acc.offset_fits⟩
+
+theorem osafe_contig {shape : List Nat} {n cap : Nat} (hfit : prodNZ shape ≤ isizeMax)
+    (hn : prod shape ≤ n) (hcap : n ≤ cap) : OSafe ⟨contigDims shape, n, cap⟩ := by
+  refine ⟨⟨fun j hj => ?_, fun _ => inj_of_no_overlap (mayOverlap_contig shape)⟩, hcap, ?_, ?_⟩
+  · have hj' : ValidIdx (contigDims shape) j := hj
+    have := c06_T1_offset_lt_min_data_len _ _ hj'
+    rw [minDataLen_contig] at this
+    show offset (contigDims shape) j < n
+    omega
+  · show prodNZ (shapeOf (contigDims shape)) ≤ isizeMax
+    rw [shapeOf_contigDims]; exact hfit
+  · have := maxOffset_contig_lt shape
+    show maxOffset (contigDims shape) < isizeMax
+    omega
+
+/-- **C06.T2q** every mutating call on an owned tensor (`clip_dim`, `append`, in-place `reshape`,
+`make_contiguous`; successful or failing) preserves the invariant… -/
 theorem c06_T2_owned_step {t : Owned} (op : OwnedOp) (hs : OSafe t) : OSafe (stepOwned t op) := by
   cases op with
   | clip dim s e =>
@@ -1074,16 +1270,61 @@ theorem c06_T2_owned_step {t : Owned} (op : OwnedOp) (hs : OSafe t) : OSafe (ste
     cases hc : clipDim t dim s e with
     | none => exact hs
     | some t' =>
-      obtain ⟨hb, hi, hle, hcap⟩ := c06_T2_clipDim hc
+      obtain ⟨hb, hi, hle, hcap, n, hn, hd⟩ := c06_T2_clipDim hc
       show OSafe t'
-      exact ⟨⟨hb, fun _ => hi (hs.1.inj rfl)⟩, by rw [hcap]; exact Nat.le_trans hle hs.2⟩
+      refine ⟨⟨hb, fun _ => hi (hs.vsafe.inj rfl)⟩, by rw [hcap]; exact Nat.le_trans hle hs.cap,
+        ?_, ?_⟩
+      · rw [hd]; exact Nat.le_trans (prodNZ_setSize_le _ _ _ hn) hs.shape_fits
+      · rw [hd]; exact Nat.lt_of_le_of_lt (maxOffset_setSize_le _ _ _ hn) hs.offset_fits
   | append axis other =>
     simp only [stepOwned]
     split
     · next t' ha =>
-      obtain ⟨acc, hcap, _, _⟩ := c06_T2_append ha hs.2
-      exact ⟨c06_accepted_vsafe acc, hcap⟩
+      obtain ⟨acc, hcap, _, _⟩ := c06_T2_append ha hs.cap
+      exact ⟨c06_accepted_vsafe acc, hcap, acc.shape_fits, acc.offset_fits⟩
     · exact hs
+  | reshape shape =>
+    simp only [stepOwned]
+    cases hr : reshape t shape with
+    | none => exact hs
+    | some t' =>
+      show OSafe t'
+      unfold reshape at hr
+      split at hr
+      · cases hr
+      · next hsl =>
+        rw [checkedShapeLen_eq] at hsl
+        have hfit : prodNZ shape ≤ isizeMax := by
+          by_cases hp : prodNZ shape ≤ isizeMax
+          · exact hp
+          · simp [hp] at hsl
+        split at hr
+        · cases hr
+        · next hlen =>
+          have hlen' : prod shape = len t.dims := by
+            by_cases hq : prod shape = len t.dims
+            · exact hq
+            · exact absurd hq hlen
+          split at hr
+          · next hc =>
+            cases hr
+            refine osafe_contig hfit ?_ hs.cap
+            -- contiguous: the storage already holds `len` elements
+            cases hz : hasZero t.dims
+            · rw [hlen', ← minDataLen_of_contiguous hc hz]
+              exact minDataLen_le_of_bounded hs.vsafe.in_bounds
+            · rw [hlen']
+              have : len t.dims = 0 := by
+                unfold len
+                exact prod_of_anyZero (by rw [← hasZero_eq_anyZero]; exact hz)
+              omega
+          · cases hr
+            exact osafe_contig hfit (by rw [hlen']; exact Nat.le_refl _) (Nat.le_refl _)
+  | makeContiguous =>
+    simp only [stepOwned, makeContiguous]
+    split
+    · exact hs
+    · exact osafe_contig hs.shape_fits (Nat.le_refl _) (Nat.le_refl _)
 
 /-- …hence so does **any program** of such calls, from any constructor-accepted tensor. -/
 theorem c06_T2_owned_program (ops : List OwnedOp) {t : Owned} (hs : OSafe t) :
@@ -1092,9 +1333,23 @@ theorem c06_T2_owned_program (ops : List OwnedOp) {t : Owned} (hs : OSafe t) :
   | nil => exact hs
   | cons op ops ih => exact ih (c06_T2_owned_step op hs)
 
-/-- Non-vacuity: `with_capacity([3,2], 0)`, two appends, a failing append, a clip. -/
-example : [OwnedOp.append 0 [(2, 0), (2, 0)], .append 0 [(2, 0), (2, 0)], .clip 0 1 2].foldl
-      stepOwned ⟨[(0, 2), (2, 1)], 0, 6⟩ = ⟨[(1, 2), (2, 1)], 2, 6⟩ := by decide
+/-- Non-vacuity: `with_capacity([3,2], 0)`, two appends (the second refused), a clip that
+makes the tensor non-contiguous, a failing and a succeeding reshape. -/
+example : [OwnedOp.append 0 [(2, 0), (2, 0)], .append 0 [(2, 0), (2, 0)], .clip 1 0 1,
+      .reshape [5], .reshape [1, 2]].foldl stepOwned ⟨[(0, 2), (2, 1)], 0, 6⟩ =
+    ⟨[(1, 2), (2, 1)], 2, 2⟩ := by decide
+
+/-- **C06 was false for in-place `reshape` before fix `d75b8c9`**: `from_data(&[2,3], 0..6)`,
+`clip_dim(1, 0..1)` (shape `[2,1]`, strides `[3,1]`), then `reshape(&[5])`: the elements were
+copied into a 2-element `Vec` before the shape was rejected; after the panic the old strided
+layout addresses offset 3 of 2 elements.  The fixed `reshape` leaves the tensor unchanged. -/
+theorem c06_reshape_old_false :
+    clipDim ⟨[(2, 3), (3, 1)], 6, 6⟩ 1 0 1 = some ⟨[(2, 3), (1, 1)], 4, 6⟩ ∧
+    reshapeOld ⟨[(2, 3), (1, 1)], 4, 6⟩ [5] = (⟨[(2, 3), (1, 1)], 2, 2⟩, true) ∧
+    validIdx [(2, 3), (1, 1)] [1, 0] = true ∧ offset [(2, 3), (1, 1)] [1, 0] = 3 ∧
+    reshape ⟨[(2, 3), (1, 1)], 4, 6⟩ [5] = none ∧
+    stepOwned ⟨[(2, 3), (1, 1)], 4, 6⟩ (.reshape [5]) = ⟨[(2, 3), (1, 1)], 4, 6⟩ := by
+  decide
 
 /-! ## `DynLayout` axis arguments (audit H1) -/
 
@@ -1165,6 +1420,16 @@ theorem c06_T3_append_size_no_wrap {a b : List (Nat × Nat)} {n k : Nat} {m m' :
     sizeAt a axis + sizeAt b axis < wordSize := by
   have h1 := Nat.le_trans (sizeAt_le_prodNZ a axis) ha.shape_fits
   have h2 := Nat.le_trans (sizeAt_le_prodNZ b axis) hb.shape_fits
+  have : isizeMax + isizeMax < wordSize := by decide
+  omega
+
+/-- The same from the program invariant: at every `append` reached by any program on an owned
+tensor (`c06_T2_owned_program`), `new_size` cannot wrap. -/
+theorem c06_T3_append_size_no_wrap_program {t : Owned} (hs : OSafe t) {other : List (Nat × Nat)}
+    (ho : prodNZ (shapeOf other) ≤ isizeMax) (axis : Nat) :
+    sizeAt t.dims axis + sizeAt other axis < wordSize := by
+  have h1 := Nat.le_trans (sizeAt_le_prodNZ t.dims axis) hs.shape_fits
+  have h2 := Nat.le_trans (sizeAt_le_prodNZ other axis) ho
   have : isizeMax + isizeMax < wordSize := by decide
   omega
 
